@@ -613,3 +613,333 @@ def exS : S :=
 example : NoDouble "x" (T.mk exS 0 [] none) :=
   ⟨by unfold SelKeys; decide, by decide, fun _ => rfl, fun _ _ _ _ h => by cases h⟩
 end Layer.Reporter
+
+/-! ### the full statement while the selector cap is not lowered -/
+namespace Layer.Reporter
+
+/-- no reporter has more selectors than the cap -/
+def Capped (s : S) : Prop := ∀ r, (selectorsOf s r).length ≤ s.params.maxSelectors
+
+/-- **C10 (RemoveSelector is unreachable while every reporter is within the cap).** -/
+theorem C10_remove_needs_excess (s : S) (a : String) (h : Capped s) : removeSelector s a = none := by
+  unfold removeSelector
+  cases hf : findSel s a with
+  | none => rfl
+  | some x =>
+    simp only []
+    cases hr : findRep s x.reporter with
+    | none => rfl
+    | some rep =>
+      simp only []
+      split
+      · rfl
+      · have := h x.reporter
+        simp [this]
+
+/-- the operations of `tstep` that leave the selection table and the parameters alone keep the cap -/
+theorem capped_of_sels_params (s s' : S) (hs : s'.sels = s.sels) (hp : s'.params = s.params) (h : Capped s) : Capped s' := by
+  intro r; unfold selectorsOf; rw [hs, hp]; exact h r
+
+theorem capped_select (s s' : S) (a r : String) (h : Capped s) (hsel : selectReporter s a r = some s') : Capped s' := by
+  obtain ⟨rep, _, _, hlt, _, _⟩ := C10_select_guards s s' a r hsel
+  unfold selectReporter at hsel
+  split at hsel; · cases hsel
+  split at hsel; · cases hsel
+  split at hsel; · cases hsel
+  split at hsel; · cases hsel
+  injection hsel with hsel; subst hsel
+  intro q
+  simp only [selectorsOf, List.filter_append, List.length_append]
+  by_cases hq : q = r
+  · subst hq
+    simp only [selectorsOf] at hlt
+    simp
+    omega
+  · have : (r == q) = false := by
+      cases hb : (r == q) with
+      | false => rfl
+      | true => exact absurd (eq_of_beq hb).symm hq
+    have hq' := h q
+    simp only [selectorsOf] at hq'
+    simp [this]
+    exact hq'
+
+/-- entries of a key-unique table with a given key: at most one -/
+theorem filter_key_le_one (l : List Sel) (a : String) (hk : (l.map (·.selector)).Nodup) : (l.filter (·.selector == a)).length ≤ 1 := by
+  induction l with
+  | nil => simp
+  | cons z zs ih =>
+    rw [List.map_cons] at hk
+    obtain ⟨hz, hzs⟩ := List.nodup_cons.mp hk
+    have ih' := ih hzs
+    rw [List.filter_cons]
+    by_cases hza : z.selector == a
+    · have hnone : zs.filter (·.selector == a) = [] := by
+        rw [List.filter_eq_nil_iff]
+        intro y hy hya
+        apply hz
+        rw [eq_of_beq hza, ← eq_of_beq hya]; exact List.mem_map_of_mem hy
+      simp [hza, hnone]
+    · simp [hza]; exact ih'
+
+/-- switching the entries with key `a` to reporter `r` adds to the selectors of `q` at most the number of such entries, and only for `q = r` -/
+theorem filter_map_switch_len (l : List Sel) (a r q : String) (lock : Int) :
+    ((l.map (fun y => if y.selector == a then { y with reporter := r, lockedUntil := lock } else y)).filter (·.reporter == q)).length ≤
+      (l.filter (·.reporter == q)).length + (if q = r then (l.filter (·.selector == a)).length else 0) := by
+  induction l with
+  | nil => simp
+  | cons z zs ih =>
+    simp only [List.map_cons, List.filter_cons]
+    by_cases hza : z.selector == a
+    · simp only [hza, ↓reduceIte]
+      by_cases hq : q = r
+      · subst hq
+        simp only [beq_self_eq_true, ↓reduceIte, List.length_cons] at ih ⊢
+        split <;> (try simp only [List.length_cons]) <;> omega
+      · have hrq : (r == q) = false := by
+          cases hb : (r == q) with
+          | false => rfl
+          | true => exact absurd (eq_of_beq hb).symm hq
+        simp only [hrq, hq, ↓reduceIte, Bool.false_eq_true, Nat.add_zero] at ih ⊢
+        split <;> (try simp only [List.length_cons]) <;> omega
+    · simp only [hza, Bool.false_eq_true, ↓reduceIte]
+      by_cases hq : q = r
+      · simp only [hq, ↓reduceIte] at ih ⊢
+        split <;> (try simp only [List.length_cons]) <;> omega
+      · simp only [hq, ↓reduceIte, Nat.add_zero] at ih ⊢
+        split <;> (try simp only [List.length_cons]) <;> omega
+
+theorem capped_switch (s s' : S) (now : Int) (rp : String → Bool) (a r : String) (hk : SelKeys s) (h : Capped s)
+    (hsw : switchReporter s now rp a r = some s') : Capped s' := by
+  obtain ⟨rep, _, _, hlt⟩ := C10_switch_guards s s' now rp a r hsw
+  unfold switchReporter at hsw
+  split at hsw; · cases hsw
+  split at hsw; · cases hsw
+  split at hsw; · cases hsw
+  split at hsw; · cases hsw
+  split at hsw; · cases hsw
+  injection hsw with hsw; subst hsw
+  intro q
+  have h1 := filter_key_le_one s.sels a hk
+  simp only [selectorsOf] at hlt ⊢
+  have hq := h q
+  simp only [selectorsOf] at hq
+  refine Nat.le_trans (filter_map_switch_len s.sels a r q _) ?_
+  by_cases hqr : q = r
+  · subst hqr; simp only [↓reduceIte]; omega
+  · simp only [hqr, ↓reduceIte, Nat.add_zero]; omega
+
+end Layer.Reporter
+
+namespace Layer.Reporter
+
+/-- every selection points to a registered reporter, every reporter has a selection entry, and the cap admits a reporter's own entry -/
+def RepSel (s : S) : Prop :=
+  (∀ x ∈ s.sels, (findRep s x.reporter).isSome = true) ∧ (∀ rep ∈ s.reps, (findSel s rep.name).isSome = true) ∧ 1 ≤ s.params.maxSelectors
+
+theorem find_append_isSome {α} (l : List α) (n : α) (p : α → Bool) (h : (l.find? p).isSome = true) : ((l ++ [n]).find? p).isSome = true := by
+  rw [List.find?_append]
+  cases hl : l.find? p with
+  | none => simp [hl] at h
+  | some v => simp
+
+theorem find_last_isSome {α} (l : List α) (n : α) (p : α → Bool) (h : p n = true) : ((l ++ [n]).find? p).isSome = true := by
+  rw [List.find?_isSome]; exact ⟨n, by simp, h⟩
+
+theorem findRep_map_name (reps : List Rep) (g : Rep → Rep) (hg : ∀ y, (g y).name = y.name) (r : String)
+    (h : (reps.find? (·.name == r)).isSome = true) : ((reps.map g).find? (·.name == r)).isSome = true := by
+  rw [List.find?_isSome] at h ⊢
+  obtain ⟨x, hx, hxr⟩ := h
+  exact ⟨g x, List.mem_map_of_mem hx, by rw [hg x]; exact hxr⟩
+
+/-- the combined invariant of the selection tables -/
+def Tables (s : S) : Prop := SelKeys s ∧ RepSel s ∧ Capped s
+
+theorem tables_create (s s' : S) (a : String) (m : Int) (h : Tables s) (hc : createReporter s a m = some s') : Tables s' := by
+  obtain ⟨hk, ⟨r1, r2, r3⟩, hcap⟩ := h
+  have hk' := C10_one_reporter_create s s' a m hk hc
+  obtain ⟨_, _, hnosel⟩ := C10_create_guards s s' a m hc
+  unfold createReporter at hc
+  split at hc; · cases hc
+  split at hc; · cases hc
+  split at hc; · cases hc
+  injection hc with hc; subst hc
+  -- `a` is no reporter yet (it would have a selection entry), so nobody selects it
+  have hnorep : findRep s a = none := by
+    cases hf : findRep s a with
+    | none => rfl
+    | some rep =>
+      exfalso
+      have hm : rep ∈ s.reps := List.mem_of_find?_eq_some hf
+      have hn : rep.name = a := by simpa using List.find?_some hf
+      have := r2 rep hm
+      rw [hn] at this
+      rw [this] at hnosel; cases hnosel
+  have hnone : selectorsOf s a = [] := by
+    unfold selectorsOf
+    rw [List.filter_eq_nil_iff]
+    intro x hx hxa
+    have := r1 x hx
+    rw [eq_of_beq hxa, hnorep] at this; cases this
+  refine ⟨hk', ⟨?_, ?_, r3⟩, ?_⟩
+  · intro x hx
+    simp only [List.mem_append, List.mem_singleton] at hx
+    unfold findRep
+    rcases hx with hx | rfl
+    · exact find_append_isSome _ _ _ (r1 x hx)
+    · exact find_last_isSome _ _ _ (by simp)
+  · intro rep hrep
+    simp only [List.mem_append, List.mem_singleton] at hrep
+    unfold findSel
+    rcases hrep with hrep | rfl
+    · exact find_append_isSome _ _ _ (r2 rep hrep)
+    · exact find_last_isSome _ _ _ (by simp)
+  · intro q
+    simp only [selectorsOf, List.filter_append, List.length_append]
+    by_cases hq : q = a
+    · subst hq
+      have : (s.sels.filter (·.reporter == q)).length = 0 := by
+        have := hnone; unfold selectorsOf at this; rw [this]; rfl
+      simp [this]; exact r3
+    · have hne : (a == q) = false := by
+        cases hb : (a == q) with
+        | false => rfl
+        | true => exact absurd (eq_of_beq hb).symm hq
+      have := hcap q
+      simp only [selectorsOf] at this
+      simp [hne]; exact this
+
+theorem tables_select (s s' : S) (a r : String) (h : Tables s) (hc : selectReporter s a r = some s') : Tables s' := by
+  obtain ⟨hk, ⟨r1, r2, r3⟩, hcap⟩ := h
+  have hk' := C10_one_reporter_select s s' a r hk hc
+  have hcap' := capped_select s s' a r hcap hc
+  obtain ⟨rep, hrep, _, _, _, _⟩ := C10_select_guards s s' a r hc
+  unfold selectReporter at hc
+  split at hc; · cases hc
+  split at hc; · cases hc
+  split at hc; · cases hc
+  split at hc; · cases hc
+  injection hc with hc; subst hc
+  refine ⟨hk', ⟨?_, ?_, r3⟩, hcap'⟩
+  · intro x hx
+    simp only [List.mem_append, List.mem_singleton] at hx
+    rcases hx with hx | rfl
+    · exact r1 x hx
+    · show (findRep s r).isSome = true
+      rw [hrep]; rfl
+  · intro rp hrp
+    unfold findSel
+    exact find_append_isSome _ _ _ (r2 rp hrp)
+
+theorem tables_switch (s s' : S) (now : Int) (rp : String → Bool) (a r : String) (h : Tables s)
+    (hc : switchReporter s now rp a r = some s') : Tables s' := by
+  obtain ⟨hk, ⟨r1, r2, r3⟩, hcap⟩ := h
+  have hk' := C10_one_reporter_switch s s' now rp a r hk hc
+  have hcap' := capped_switch s s' now rp a r hk hcap hc
+  obtain ⟨rep, hrep, _, _⟩ := C10_switch_guards s s' now rp a r hc
+  unfold switchReporter at hc
+  split at hc; · cases hc
+  split at hc; · cases hc
+  split at hc; · cases hc
+  split at hc; · cases hc
+  split at hc; · cases hc
+  injection hc with hc; subst hc
+  refine ⟨hk', ⟨?_, ?_, r3⟩, hcap'⟩
+  · intro x hx
+    obtain ⟨y, hy, hyx⟩ := List.mem_map.mp hx
+    subst hyx
+    show (findRep s _).isSome = true
+    split
+    · simp only []; rw [hrep]; rfl
+    · exact r1 y hy
+  · intro rp' hrp'
+    have := r2 rp' hrp'
+    unfold findSel at this ⊢
+    rw [List.find?_isSome] at this ⊢
+    obtain ⟨x, hx, hxn⟩ := this
+    refine ⟨_, List.mem_map_of_mem hx, ?_⟩
+    split <;> exact hxn
+
+theorem tables_frame (s s' : S) (h : Tables s) (hs : s'.sels = s.sels) (hp : s'.params = s.params)
+    (hr : ∀ r, (findRep s r).isSome = true → (findRep s' r).isSome = true) (hn : s'.reps.map (·.name) = s.reps.map (·.name)) : Tables s' := by
+  obtain ⟨hk, ⟨r1, r2, r3⟩, hcap⟩ := h
+  refine ⟨by unfold SelKeys; rw [hs]; exact hk, ⟨?_, ?_, by rw [hp]; exact r3⟩, capped_of_sels_params s s' hs hp hcap⟩
+  · intro x hx; rw [hs] at hx; exact hr _ (r1 x hx)
+  · intro rep hrep
+    have : rep.name ∈ s.reps.map (·.name) := by rw [← hn]; exact List.mem_map_of_mem hrep
+    obtain ⟨rep0, h0, hn0⟩ := List.mem_map.mp this
+    have := r2 rep0 h0
+    unfold findSel at this ⊢
+    rw [hs, ← hn0]; exact this
+
+theorem tables_step (a : String) (t : T) (op : Op) (h : Tables t.s) : Tables (tstep a t op).s := by
+  cases op with
+  | advance dt => exact h
+  | report r => simp only [tstep]; split <;> exact h
+  | staking vals dels =>
+    exact tables_frame t.s _ h rfl rfl (fun _ hr => hr) rfl
+  | switch x r => simp only [tstep]; cases hsw : switchReporter t.s t.now (fun p => t.reported.contains p) x r with
+    | none => exact h
+    | some s' => exact tables_switch _ _ _ _ _ _ h hsw
+  | select x r => simp only [tstep]; cases hsel : selectReporter t.s x r with
+    | none => exact h
+    | some s' => exact tables_select _ _ _ _ h hsel
+  | create x m => simp only [tstep]; cases hcr : createReporter t.s x m with
+    | none => exact h
+    | some s' => exact tables_create _ _ _ _ h hcr
+  | remove x => simp only [tstep]; rw [C10_remove_needs_excess t.s x h.2.2]; exact h
+  | jail r d => simp only [tstep]; cases hj : jail t.s t.now r d with
+    | none => exact h
+    | some s' =>
+      obtain ⟨h1, h2⟩ := jail_frame _ _ _ _ _ hj
+      unfold jail at hj
+      split at hj; · cases hj
+      split at hj; · cases hj
+      injection hj with hj; subst hj
+      refine tables_frame t.s _ h rfl rfl ?_ ?_
+      · intro q hq; unfold findRep at hq ⊢; exact findRep_map_name _ _ (by intro y; split <;> rfl) q hq
+      · simp only []; rw [List.map_map]; apply List.map_congr_left; intro y _; simp only [Function.comp]; split <;> rfl
+  | unjail r => simp only [tstep]; cases hj : unjail t.s t.now r with
+    | none => exact h
+    | some s' =>
+      unfold unjail at hj
+      split at hj; · cases hj
+      split at hj; · cases hj
+      split at hj; · cases hj
+      injection hj with hj; subst hj
+      refine tables_frame t.s _ h rfl rfl ?_ ?_
+      · intro q hq; unfold findRep at hq ⊢; exact findRep_map_name _ _ (by intro y; split <;> rfl) q hq
+      · simp only []; rw [List.map_map]; apply List.map_congr_left; intro y _; simp only [Function.comp]; split <;> rfl
+
+/-- **C10 (no double counting, full statement while the cap is not lowered).** With well-formed selection tables (one entry per
+address, selections point to reporters, every reporter has its entry, no reporter above a cap of at least 1), over EVERY sequence
+of operations — removals included, since `RemoveSelector` cannot succeed — the lock invariant holds: the same selector's stake
+enters reports of two different reporters only if at least the unbonding period lies between them. -/
+theorem C10_no_double_count (a : String) (ops : List Op) (t : T) (h : NoDouble a t) (ht : Tables t.s) :
+    NoDouble a (ops.foldl (tstep a) t) ∧ Tables (ops.foldl (tstep a) t).s := by
+  induction ops generalizing t with
+  | nil => exact ⟨h, ht⟩
+  | cons op ops ih =>
+    have ht' := tables_step a t op ht
+    have h' : NoDouble a (tstep a t op) := by
+      by_cases hop : op = .remove a
+      · subst hop
+        simp only [tstep]; rw [C10_remove_needs_excess t.s a ht.2.2]; exact h
+      · exact nodouble_step a t op h hop
+    exact ih (tstep a t op) h' ht'
+
+/-- the table invariant holds in the concrete start state used above -/
+example : Tables exS := by
+  refine ⟨by unfold SelKeys; decide, ⟨by decide, by decide, by decide⟩, ?_⟩
+  intro r
+  unfold selectorsOf exS
+  simp only []
+  by_cases h : r = "A"
+  · subst h; decide
+  · have : ("A" == r) = false := by
+      cases hb : ("A" == r) with
+      | false => rfl
+      | true => exact absurd (eq_of_beq hb).symm h
+    simp [this]
+
+end Layer.Reporter
